@@ -118,6 +118,62 @@ pub fn run(tier: Tier, seed: u64) -> i32 {
             }
         }
     }
+    // mid magnitudes, sampled: between the small grid and the 64-bit edge values lie the sizes
+    // real orders have; every quantity is drawn *relative* to the displayed one (equal, one off,
+    // within a percent, half, double) because that is where rules written with ratios,
+    // percentages or signed differences change their answer
+    let mut rng = crate::rng::Rng::derive(seed ^ 0xc05, 0);
+    let n_mid = budget(tier, 300_000, 20_000_000);
+    let mut mid_cases = 0u64;
+    let mut rel = |rng: &mut crate::rng::Rng, d: u64| -> u64 {
+        let x = match rng.below(12) {
+            0 => d,
+            1 => d.saturating_add(1),
+            2 => d.saturating_sub(1),
+            3 => d.saturating_add(d / 100),
+            4 => d.saturating_add(d / 200 + 1),
+            5 => d - d / 100,
+            6 => d / 2,
+            7 => d.saturating_mul(2),
+            8 => d.saturating_mul(2).saturating_add(1),
+            9 => rng.below(10),
+            10 => rng.range(0, d.saturating_mul(3).max(1)),
+            _ => d.saturating_add(rng.below(16)),
+        };
+        x.min(1 << 62)
+    };
+    for i in 0..n_mid {
+        let kind = KINDS[(i % 7) as usize];
+        let mag = *rng.pick(&[100u64, 1_000, 10_000, 1_000_000, 1 << 31, 1 << 40]);
+        let d = match rng.below(4) {
+            0 => mag,
+            1 => rng.range(1, mag),
+            2 => mag + rng.below(10),
+            _ => rng.range(mag / 2, mag.saturating_mul(2)),
+        };
+        let h = if kind.layered() { rel(&mut rng, d) } else { 0 };
+        let q = match rng.below(4) {
+            0 => rel(&mut rng, d),
+            1 => rel(&mut rng, d.saturating_add(h)),
+            2 => d.saturating_add(h),
+            _ => rel(&mut rng, d),
+        };
+        let (thr, amt, auto) = if kind == Kind::Reserve {
+            (
+                rel(&mut rng, d),
+                match rng.below(3) {
+                    0 => None,
+                    _ => Some(rel(&mut rng, d)),
+                },
+                rng.chance(3, 4),
+            )
+        } else {
+            (0, None, true)
+        };
+        one(&mut rep, kind, d, h, thr, amt, auto, q, &mut cells);
+        mid_cases += 1;
+    }
+    rep.set("mid_magnitude_cases(sampled, quantities relative to the display)", json!(mid_cases));
     rep.set("grid_cases", json!(grid_cases));
     rep.set("boundary_cases", json!(boundary_cases));
     rep.set(
